@@ -6,8 +6,8 @@ import random
 class Prop(PoolProp):
     pid = "C04"
     # real processes: a call given up after two results while large results are still on their way, then the context is left
-    real_scenarios = ("abandoned_big_results", "from_thread")
-    real_scenarios_quick = ("abandoned_big_results",)
+    real_scenarios = ("abandoned_big_results", "exit_with_running_worker", "from_thread")
+    real_scenarios_quick = ("abandoned_big_results", "exit_with_running_worker")
     focus = "lifecycle"
     p_factory = 0.5
     rule = ("as C03, with until_all_ready in half of the runs and fault injection (begin() raises in some worker; the functor "
